@@ -997,10 +997,11 @@ static void sched_child(const std::vector<int>& wls, const std::vector<uintptr_t
 }
 static SchedResult run_schedule(const std::vector<int>& wls, const std::vector<uintptr_t>& conf, const std::vector<Dec>& forced,
                                 bool rr = false, int quantum = 0) {
+    int timeout_s = rr ? 600 : 60;      // a round-robin run of 16 sweep workloads hands the token over about a million times
     SchedResult r;
     r.ok = false; r.points = 0; r.deadlock = r.bad_replay = false; r.guard_blocks = r.lock_blocks = r.rr_switches = 0;
     bool ok;
-    std::string s = in_child([&](Out& o) { sched_child(wls, conf, forced, rr, quantum, o); }, ok);
+    std::string s = in_child([&](Out& o) { sched_child(wls, conf, forced, rr, quantum, o); }, ok, timeout_s);
     if (!ok) { r.how = death(g_last_status); return r; }
     In in(s);
     r.points = in.u64(); r.deadlock = in.u64() != 0; r.bad_replay = in.u64() != 0; r.guard_blocks = (uint32_t)in.u64(); r.lock_blocks = (uint32_t)in.u64(); r.rr_switches = (uint32_t)in.u64();
@@ -1191,6 +1192,7 @@ static bool all_footprints() {
 
 struct Task { std::vector<int> wls; };      // a set of workloads to run concurrently
 
+static int gcd_(int a, int b) { return b ? gcd_(b, a % b) : a; }
 static std::vector<Task> make_tasks(bool thorough) {
     std::vector<Task> ts;
     int n = c18::kNumLibtins;
@@ -1202,7 +1204,9 @@ static std::vector<Task> make_tasks(bool thorough) {
         int rots = thorough ? n : 3;
         for (int r = 0; r < rots; ++r) {
             Task t;
-            for (int i = 0; i < k; ++i) t.wls.push_back((r * 4 + i * (r % 2 ? 1 : 5)) % n);
+            int stride = 1;
+            if (r % 2 == 0) { stride = 4; while (gcd_(stride, n) != 1) ++stride; }      // coprime with n: k distinct workloads when k <= n
+            for (int i = 0; i < k; ++i) t.wls.push_back((r * 4 + i * stride) % n);
             ts.push_back(t);
         }
     }
@@ -1374,18 +1378,22 @@ static void job(int j) {
         R.maxv("max_threads", wls.size());
         if (conf.empty()) {
             // independent: every interleaving equals the serial composition; execute ONE finely interleaved representative
-            SchedResult r = run_schedule(wls, conf, std::vector<Dec>(), true, 61);
-            R.count("states"); R.count("schedules"); R.count("representative_schedules"); R.count("traces_validated_against_impl");
-            R.count("transitions", r.points);
-            R.count("representative_switches", r.rr_switches);
-            std::string kase = "stage=1 scale=" + str(g_scale) + " wl=" + wl_names(wls);
-            if (!r.ok) { R.violation("sched:" + r.how + ":representative", "representative schedule: the threads did not complete (" + r.how + ")", kase); continue; }
-            if (r.deadlock) R.violation("sched:deadlock:" + wl_names(wls), "representative schedule deadlocked", kase);
-            for (size_t i = 0; i < wls.size(); ++i)
-                if (r.digests[i] != FP[wls[i]].digest_cold)
-                    R.violation(std::string("divergence:representative:") + c18::kWorkloads[wls[i]].name,
-                                "independent by footprint, but the interleaved run produced another digest than the run alone", kase);
-            if (k < 3) R.sample("{\"set\":" + jstr(wl_names(wls)) + ",\"independent\":true,\"representative_switches\":" + str(r.rr_switches) + "}");
+            // (thorough: three, with different round-robin quanta)
+            static const int quanta[3] = {61, 251, 1021};
+            for (int qi = 0; qi < (A.thorough() ? 3 : 1); ++qi) {
+                SchedResult r = run_schedule(wls, conf, std::vector<Dec>(), true, quanta[qi]);
+                R.count("states"); R.count("schedules"); R.count("representative_schedules"); R.count("traces_validated_against_impl");
+                R.count("transitions", r.points);
+                R.count("representative_switches", r.rr_switches);
+                std::string kase = "stage=1 scale=" + str(g_scale) + " wl=" + wl_names(wls);
+                if (!r.ok) { R.violation("sched:" + r.how + ":representative", "representative schedule: the threads did not complete (" + r.how + ")", kase); continue; }
+                if (r.deadlock) R.violation("sched:deadlock:" + wl_names(wls), "representative schedule deadlocked", kase);
+                for (size_t i = 0; i < wls.size(); ++i)
+                    if (r.digests[i] != FP[wls[i]].digest_cold)
+                        R.violation(std::string("divergence:representative:") + c18::kWorkloads[wls[i]].name,
+                                    "independent by footprint, but the interleaved run produced another digest than the run alone", kase);
+                if (k < 3 && qi == 0) R.sample("{\"set\":" + jstr(wl_names(wls)) + ",\"independent\":true,\"representative_switches\":" + str(r.rr_switches) + "}");
+            }
         } else {
             if (!is_pair && !A.thorough()) {
                 // the dependent pairs inside this set are explored as pairs; sets of >2 threads only in the thorough tier
